@@ -25,6 +25,7 @@ type c02Case struct {
 	Server string            `json:"server"` // default | retry | cid20 | smallwin
 	Dials  int               `json:"dials"`
 	Sched  simworld.Schedule `json:"schedule"`
+	Bulk   bool              `json:"bulk,omitempty"` // megabytes in both directions on streams of every kind, read slowly: the peer runs ahead of the reader as far as the advertised windows allow
 }
 
 func c02ErrClass(err error) string {
@@ -59,6 +60,9 @@ func TestVerifC02Parrots(t *testing.T) {
 	for _, id := range quicworld.QUICIDNames {
 		for _, sv := range servers {
 			cases = append(cases, c02Case{Name: fmt.Sprintf("clean/%s/%s", id, sv), QUICID: id, Server: sv, Dials: dials})
+			if sv == "default" || sv == "hrr" {
+				cases = append(cases, c02Case{Name: fmt.Sprintf("bulk/%s/%s", id, sv), QUICID: id, Server: sv, Dials: 2, Bulk: true})
+			}
 			nFirst := l.Pick(4, 6)
 			if sv != "default" && l.Quick() {
 				nFirst = 2
@@ -113,6 +117,11 @@ func TestVerifC02Parrots(t *testing.T) {
 				}
 			}
 			ts := quicworld.TransferSpec{Streams: []quicworld.StreamSpec{{Bytes: 2000, Reply: 2000}}, ChunkSeed: uint64(i)}
+			if cs.Bulk {
+				ts.Streams = []quicworld.StreamSpec{{Bytes: 2000, Reply: 3 << 20, SlowReader: true}, {FromServer: true, Bytes: 2 << 20, Reply: 300000, SlowReader: true},
+					{FromServer: true, Uni: true, Bytes: 2 << 20, SlowReader: true}, {Uni: true, Bytes: 1 << 20}}
+				ts.MaxChunk = 16 << 10
+			}
 			sr := quicworld.RunDialSeries(opt, cs.Dials, ts, 10*time.Second, i*10)
 			if sr.WorldErr != nil {
 				c.Violation("C02|harness|world", sr.WorldErr.Error(), nil)
